@@ -239,41 +239,46 @@ CLAIMED['C15'] = dict(
               "property's oracle (an independent reading of the criteria grammar) on the implementation",
     text="Model/Criteria.v transcribes criteria_parser (closures -> a criterion datatype {numeric-equals, "
          "wildcard pattern, operator+number, operator+text} produced by parse_criteria and interpreted by sat), "
-         "build_wildcard_re (the generated regex -> glob_match, for criteria without regex metacharacters "
-         "other than ? and *; others are Unmodelled), find_corresponding_index, handle_ifs (argument pairing, "
-         "shape checks, Counter intersection) and COUNTIF(S), SUMIF(S), AVERAGEIF(S), MAXIFS, MINIFS with "
-         "_numerics, on top of Gen/excelutil.v (is_number, coerce_to_number, list_like, OPERATORS, ERROR_CODES, "
-         "DIV0, VALUE_ERROR: re-translated every run). 16 theorems in coq/Props/C15.v, all closed under the "
-         "global context, all for unbounded inputs (any number of criteria pairs, any range size, any text). "
-         "FULL: C15_glob (glob_match = the declarative ?/* matcher Glob); C15_sat (the closure decides the "
-         "declarative meaning Sat of the criterion whenever it returns); C15_text_only_ne / C15_number_compares / "
-         "C15_text_case_insensitive (text and blank satisfy only <> under a numeric operand, numbers compare, "
-         "text compares lower-cased); C15_select + C15_select_pairs (whenever handle_ifs returns positions they "
-         "are, without repetition, exactly the positions whose cell in every pair's range satisfies that pair's "
-         "criterion; the pairs are the argument pairs in order); C15_countifs_counts, C15_sumifs_sums, "
-         "C15_maxifs_minifs (the consumers aggregate exactly the cells at those positions, numeric cells); "
-         "C15_ifs_eq_if (COUNTIFS(r,c) = COUNTIF(r,c) for every non-empty range, including the raising cases) "
-         "and C15_ifs_eq_if_sum_average (SUMIF/AVERAGEIF are their IFS forms by definition); C15_commute (any "
-         "permutation of the criteria pairs also succeeds and selects the same set); C15_avg (AVERAGEIFS = "
-         "SUMIFS / COUNTIFS when the selected cells are ints/floats and at least one). PARTIAL: "
-         "C15_partition_partial / C15_partition_range_partial ('=v' and '<>v' are complementary on every cell / "
-         "partition every range for a text operand without wildcards, and for a numeric operand over cells "
-         "that are blank, logical, integer, float or non-numeric text). "
-         "REFUTED in the model (advisory, coq/Refuted/C15_partition.v, C15_total.v): with a wildcard operand "
-         "'apple' satisfies both '=a*' and '<>a*' ('<>' compares literally); a numeric text cell '1' satisfies "
-         "both '=1' and '<>1'; 'never fails' is false: COUNTIF({\"apple\";1},\"a*\") and SUMIFS over a "
-         "logical raise AttributeError, an error value among the selected cells of the aggregated range makes "
-         "SUMIFS raise TypeError and MAXIFS return the largest character of the error text. That handle_ifs "
-         "returns at all (totality) is therefore not a theorem. CORRESPONDENCE-ONLY: the parsing of concrete "
-         "criteria texts into the datatype (only the '=v' / '<>v' forms have parse lemmas), the shape-check "
-         "results (#VALUE!, AssertionError, IndexError), _numerics' error/logical/text handling and "
-         "AVERAGEIF(S)/MAXIFS/MINIFS on non-numeric cells. Every quick run compares the extracted model with "
-         "the real functions (called through apply_meta) on ~90k calls, exactly (values, int/float kind, error "
-         "texts, exception classes): a ~330 x ~90 criterion x cell table through criteria_parser, 8000 sampled "
-         "scenarios (ranges up to 5x3 over mixed pools, 1-3 criteria pairs from the grammar) through handle_ifs "
-         "and all eight consumers, and shape-mismatch/scalar/empty/ragged ranges; ~8% of the calls are outside "
-         "the model (Unmodelled). The oracle (~75k evaluations) judges selection, aggregation, IFS=IF, "
-         "commutation, partition and AVERAGEIFS=SUMIFS/COUNTIFS on the implementation alone.",
+         "build_wildcard_re (the generated regex -> glob_match, applied to text cells only, for criteria "
+         "without regex metacharacters other than ? and *; others are Unmodelled), find_corresponding_index, "
+         "handle_ifs (argument pairing, shape checks, Counter intersection) and COUNTIF(S), SUMIF(S), "
+         "AVERAGEIF(S), MAXIFS, MINIFS with _numerics, on top of Gen/excelutil.v (is_number, coerce_to_number, "
+         "list_like, OPERATORS, ERROR_CODES, DIV0, VALUE_ERROR: re-translated every run). 22 theorems in "
+         "coq/Props/C15.v, all closed under the global context, all for unbounded inputs (any number of criteria "
+         "pairs, any range size, any text). FULL: C15_glob (glob_match = the declarative ?/* matcher Glob); "
+         "C15_sat (the closure decides the declarative meaning Sat of the criterion whenever it returns); "
+         "C15_text_only_ne / C15_number_compares / C15_text_case_insensitive / C15_wildcard_nontext (text and "
+         "blank satisfy only <> under a numeric operand, numbers compare, text compares lower-cased, a wildcard "
+         "over a non-text cell is false); C15_select + C15_select_pairs (whenever handle_ifs returns positions "
+         "they are, without repetition, exactly the positions whose cell in every pair's range satisfies that "
+         "pair's criterion - cells of any type; the pairs are the argument pairs in order); C15_total + "
+         "C15_total_positions + C15_total_countifs + C15_total_parse + C15_total_sat (over ranges of scalar "
+         "cells of any mix of types and number/logical/text criteria: every criterion parses, the check never "
+         "raises on a cell, handle_ifs returns positions or the #VALUE! of a shape mismatch and raises only "
+         "AssertionError for unpaired arguments / IndexError for an empty range - or the input is outside the "
+         "model: Unmodelled); C15_countifs_counts, C15_sumifs_sums, C15_maxifs_minifs (the consumers aggregate "
+         "exactly the cells at those positions, numeric cells); C15_ifs_eq_if (COUNTIFS(r,c) = COUNTIF(r,c) for "
+         "every non-empty range, including the raising cases) and C15_ifs_eq_if_sum_average (SUMIF/AVERAGEIF "
+         "are their IFS forms by definition); C15_commute (any permutation of the criteria pairs also succeeds "
+         "and selects the same set); C15_avg (AVERAGEIFS = SUMIFS / COUNTIFS when the selected cells are "
+         "ints/floats and at least one). PARTIAL: C15_partition_partial / C15_partition_range_partial ('=v' and "
+         "'<>v' are complementary on every cell / partition every range for a text operand without wildcards, "
+         "and for a numeric operand over cells that are blank, logical, integer, float or non-numeric text). "
+         "REFUTED in the model (advisory, coq/Refuted/C15_partition.v, C15_error_cells.v; all are known "
+         "findings): with a wildcard operand 'apple' satisfies both '=a*' and '<>a*' ('<>' compares literally); "
+         "a numeric text cell '1' satisfies both '=1' and '<>1'; an error value among the selected cells of the "
+         "AGGREGATED range makes SUMIFS raise TypeError and MAXIFS return the largest character of the error "
+         "text (totality is proved for the selection, not for the aggregation over error values). "
+         "CORRESPONDENCE-ONLY: the parsing of concrete criteria texts into the datatype (only the '=v' / '<>v' "
+         "forms have parse lemmas), _numerics' error/logical/text handling and AVERAGEIF(S)/MAXIFS/MINIFS on "
+         "non-numeric cells. Every quick run compares the extracted model with the real functions (called "
+         "through apply_meta) on ~90k calls, exactly (values, int/float kind, error texts, exception classes): a "
+         "~330 x ~90 criterion x cell table through criteria_parser, 8000 sampled scenarios (ranges up to 5x3 "
+         "over mixed pools, 1-3 criteria pairs from the grammar) through handle_ifs and all eight consumers, and "
+         "shape-mismatch/scalar/empty/ragged ranges; ~8% of the calls are outside the model (Unmodelled). The "
+         "oracle (~75k evaluations) judges selection (incl. that no cell of a mixed-type range makes a function "
+         "fail, wildcard criteria included), aggregation, IFS=IF, commutation, partition and "
+         "AVERAGEIFS=SUMIFS/COUNTIFS on the implementation alone.",
     design_ref="DESIGN.md 5 C15",
 )
 
